@@ -186,3 +186,31 @@ Proof.
   destruct (read_fanout file _ 256) as [fo|] eqn:E; [|discriminate]. intros [= <-]. cbn [f_fanout].
   apply read_fanout_ok in E. exact E.
 Qed.
+
+(* ---------------------------------------------------------------- re-exported by Properties/C53.v *)
+Theorem c53_graph_total :
+  (forall file off pos cnt g, (S (List.length file) <= g)%nat ->
+     read_edges file g off pos cnt = read_edges file (S (List.length file)) off pos cnt) /\
+  (forall file fi h g, open_file file = Ok fi -> (40 <= g)%nat ->
+     match h with
+     | [] => Er ENotFound
+     | b0 :: _ => bsearch file fi h g (if b0 =? 0 then 0 else nth (N.to_nat b0 - 1) (f_fanout fi) 0) (nth (N.to_nat b0) (f_fanout fi) 0)
+     end = index_by_hash file fi h).
+Proof.
+  split; [apply commit_edges_stable|]. intros file fi h g O Hg. apply index_by_hash_stable; [|exact Hg].
+  apply open_file_fanout in O. apply O.
+Qed.
+
+Theorem c53_graph_no_oob :
+  (forall file fi idx, ncommits fi <= idx -> get_commit_data file fi idx = Er ENotFound) /\
+  (forall file fi idxs i, In i idxs -> ncommits fi <= i -> exists e, hashes_of file fi idxs = Er e) /\
+  (forall file f off pos cnt, (cnt <= pos)%Z -> read_edges file (S f) off pos cnt = Er EMalformed) /\
+  (forall file fi idx d, get_commit_data file fi idx = Ok d ->
+     idx < ncommits fi /\ List.length (d_tree d) = 20%nat /\
+     Forall (fun i => i < ncommits fi) (d_pidx d) /\ List.length (d_phash d) = List.length (d_pidx d) /\
+     Forall (fun h => List.length h = 20%nat) (d_phash d) /\
+     (4 * Z.of_nat (List.length (d_pidx d)) <= Z.of_nat (List.length file) + 4)%Z).
+Proof.
+  repeat split; try (eapply commit_data_ok; eassumption).
+  - apply commit_index_rejected. - apply hashes_of_index_rejected. - apply read_edges_pos_rejected.
+Qed.
